@@ -149,10 +149,10 @@ PROPS['C08'] = dict(
     level_text='Single-step contract of the range iterator proved for every bucket content, every key and every bound; the whole-scan statement follows by induction over calls (paper).',
     level_note='Range::next is RELATIVE to the Cursor contract (prelude/cursor_contract.rs: seek stops at the key or just before where it would be; first next yields the current slot). '
                'The cursor unit proves the traversal against the in-order numbering of an assumed structurally sound tree (branches non-empty, finite height); that tree order IS ascending key order is C05 of the state the cursor runs on (assumed here), '
-               'and WHERE seek lands relative to the key (PageNode::index, slot-before rule) is proved per node in unit pagenode but not composed over levels. Termination of the skip-emptied-leaves loop in Cursor::next is not proved. Byte-string order is an uninterpreted strict total order.',
+               'and WHERE seek lands relative to the key (PageNode::index, slot-before rule) is proved per node in unit pagenode but not composed over levels. Termination of every loop of the cursor is proved (the loop in Cursor::next that skips emptied leaves by a position numbering, prelude/cursor_slots.rs). Byte-string order is an uninterpreted strict total order.',
     assumptions=[A_TOOLS, 'Cursor::{seek,current,next} by assumed contract over an abstract ascending key sequence', 'byte-string comparison is a strict total order (axiom_key_order); rule R10: `a < *b` on &[u8] compares the slices',
                  'the RangeBounds implementation agrees with its vstd specification (true for every std range type and (Bound, Bound))'],
-    not_covered=['that the position seek leaves is the slot-before of the key over ALL levels (per node: unit pagenode)', 'termination of the loop in Cursor::next that skips leaves emptied inside the transaction (partial correctness only; advance and seek_first terminate)'],
+    not_covered=['that the position seek leaves is the slot-before of the key over ALL levels (per node: unit pagenode)'],
 )
 
 A_TREEIF = 'the tree a cursor walks is an abstract interface (prelude/cursor_tree.rs): branch nodes are never empty, children are strictly lower (finite height), the shape does not change while the cursor walks'
@@ -171,7 +171,7 @@ PROPS['C07'] = dict(
     level_text='Unbounded proofs of the per-node read/write operations, of cursor safety and of in-order completeness of the traversal; NOT a proof that the composed read API equals a model after every operation (the overlay rule and bucket-level operations are assumed / elsewhere).',
     level_note='The overlay rule itself (InnerBucket::page_node: a page id resolves to the transaction\'s node iff one exists) could not be brought under contract: the real struct is a recursive Rc<RefCell<..>>/HashMap graph; it is an assumed interface of the cursor unit. Bucket-level put/delete/get and nested buckets are not under contract.',
     assumptions=[A_TOOLS, A_ARITH, A_TREEIF, A_ELEMS, 'RefCell stand-in (sequential view)', 'byte-string order is a strict total order'],
-    not_covered=['InnerBucket::page_node overlay rule (N3)', 'termination of the skip-emptied-leaves loop of Cursor::next', 'bucket listing and point lookups through InnerBucket::get'],
+    not_covered=['InnerBucket::page_node overlay rule (N3)', 'bucket listing and point lookups through InnerBucket::get'],
 )
 
 PROPS['C05'] = dict(
